@@ -109,6 +109,8 @@ def e2e_jwt_cases(rng, tier):
         out.append({"op": "e2e_jwtauth", "auth": ["client_secret_jwt", "private_key_jwt"][i % 2], "client_id": rng.choice(VALS), "client_secret": rng.choice(VALS[:8]) * 4,
                     "grant": rng.choice(["client_credentials", "authorization_code", "password"]), "code": rng.choice(VALS), "scope": rng.choice([None, "a b", "sp ace ü"]),
                     "username": rng.choice(VALS), "password": rng.choice(VALS), "token": "tok", "placement": "header", "redirect_uri": None, "verifier": None, "refresh": "r"})
+        if i % 3 == 0:
+            out[-1]["token_url"] = ["https://as.example/token?tenant=a%20b", "https://as.example/t/token?x=1&y=2"][i % 2]       # a token endpoint URL with a query component
         out.append({"op": "e2e_assertion", "issuer": rng.choice(VALS), "subject": rng.choice(VALS + [None]), "audience": rng.choice([None, "https://as.example/token", "aud é&="]),
                     "scope": rng.choice([None, "a b", "sp ace ü"]), "claims": rng.choice([None, {"x": "y é"}]), "alg": ["HS256", "RS256"][i % 2], "token": "tok",
                     "placement": rng.choice(["header", "body", "uri"])})
@@ -136,8 +138,46 @@ def e2e_pkce_cases(rng, tier):
     return [{"op": "e2e_pkce", "verifier": v, "method": m, "state": st} for v in PKCE_VERIFIERS for m in ("S256", "plain") for st in ("S1", "s 2&x=y")]
 
 
+def e2e_implicit_cases():
+    """an implicit response produced by the real provider (whose token generator adds members of its own) parsed back by the three clients: the same token fields"""
+    return [{"op": "e2e_implicit", "extra": ex, "state": st} for ex in ({}, {"example_parameter": "example value & more"}, {"tenant": "t-1", "x": "ü"}) for st in ("S1", "s 2&x=y")]
+
+
+def e2e_implicit(c):
+    import memserver as ms
+    import httpx
+    from authlib.integrations.requests_client import OAuth2Session
+    from authlib.integrations.httpx_client import OAuth2Client, AsyncOAuth2Client
+    store, srv, rp = ms.build(oidc=False)
+    store.clients["pk"] = ms.Client("pk", "", ["https://c.example/cb"], "a b", ms.ALL_GRANT_TYPES, ms.ALL_RESPONSE_TYPES, "none")
+
+    def gen(grant_type, client, user=None, scope=None, expires_in=None, include_refresh_token=True):
+        return dict({"token_type": "Bearer", "access_token": "at-implicit", "expires_in": 3600, "scope": scope}, **c["extra"])
+    srv.register_token_generator("default", gen)
+    r = srv.create_authorization_response(ms.Req("POST", "https://as.example/authorize", dict(response_type="token", client_id="pk", scope="a", state=c["state"], redirect_uri="https://c.example/cb")),
+                                          grant_user=store.users[1])
+    loc = dict(r.headers).get("Location", "")
+    out = {"location_ok": loc.startswith("https://c.example/cb#")}
+    for name, cls in (("requests", OAuth2Session), ("httpx", OAuth2Client), ("async", AsyncOAuth2Client)):
+        try:
+            s = cls("pk", None, token_endpoint_auth_method="none")
+            tok = s.fetch_token(authorization_response=loc, state=c["state"])
+            if name == "async":
+                async def go(tok=tok, s=s):
+                    import inspect
+                    if inspect.isawaitable(tok):
+                        tok = await tok
+                    await s.aclose()
+                    return tok
+                tok = asyncio.run(go())
+            out[name] = {k: v for k, v in dict(tok).items() if k not in ("expires_at", "state")}
+        except Exception as e:
+            out[name] = {"raised": type(e).__name__ + ": " + str(e)[:80]}
+    return out
+
+
 def cases(rng, tier):
-    return _cases(rng, tier) + e2e_jwt_cases(rng, tier) + e2e_pkce_cases(rng, tier)
+    return _cases(rng, tier) + e2e_jwt_cases(rng, tier) + e2e_pkce_cases(rng, tier) + e2e_implicit_cases()
 
 
 def _cases(rng, tier):
@@ -321,6 +361,8 @@ def impl(c):
         return e2e_assertion(c)
     if op == "e2e_pkce":
         return e2e_pkce(c)
+    if op == "e2e_implicit":
+        return e2e_implicit(c)
     raise AssertionError(op)
 
 
@@ -385,7 +427,7 @@ def _drive(s, c, is_async):
         kw = dict(grant_type="client_credentials")
     elif g == "refresh_token":
         kw = None
-    url = "https://as.example/token"
+    url = c.get("token_url", "https://as.example/token")
     if is_async:
         async def go():
             if kw is None:
@@ -513,7 +555,7 @@ def _rsa():
 
 def e2e_jwtauth(c):
     from authlib.oauth2.rfc7523 import ClientSecretJWT, PrivateKeyJWT, JWTBearerClientAssertion
-    url = "https://as.example/token"
+    url = c.get("token_url", "https://as.example/token")
     priv, pub = _rsa()
     out = {}
     for name, mk, is_async in (("requests", _record_requests, False), ("httpx", lambda c: _record_httpx(c, False), False), ("async", lambda c: _record_httpx(c, True), True)):
@@ -749,7 +791,7 @@ def oracle(c, out):
             sig = {"op": op, "auth": c["auth"], "client": name}
             if "raised" in o:
                 v.append((f"{name} client raised {o['raised']}", dict(sig, kind="client-raised"))); continue
-            want = {"iss": c["client_id"], "sub": c["client_id"], "aud": "https://as.example/token"}
+            want = {"iss": c["client_id"], "sub": c["client_id"], "aud": c.get("token_url", "https://as.example/token")}
             if o["assertion_type"] != "urn:ietf:params:oauth:client-assertion-type:jwt-bearer" or o["claims"] != want:
                 v.append((f"{name}: the server half reads the {c['auth']} assertion as {o['assertion_type']!r} / {o['claims']}, the client is {c['client_id']!r}", dict(sig, kind="auth-altered")))
             if o["client_secret_in_form"]:
@@ -760,6 +802,13 @@ def oracle(c, out):
         ok = [out[n] for n in ("requests", "httpx", "async") if "raised" not in out[n]]
         if len(ok) == 3 and not (ok[0] == ok[1] == ok[2]):
             v.append(("the three client implementations emit different requests (as read by the server half)", {"op": op, "kind": "clients-differ", "auth": c["auth"]}))
+    elif op == "e2e_implicit":
+        want = dict({"token_type": "Bearer", "access_token": "at-implicit", "expires_in": "3600", "scope": "a"}, **c["extra"])
+        for name in ("requests", "httpx", "async"):
+            got = out[name]
+            norm = {k: (str(v) if k == "expires_in" else v) for k, v in got.items()} if "raised" not in got else got
+            if norm != want:
+                bad(f"{name}: the provider's implicit response (token generator adds {sorted(c['extra'])}) parses back to {got}, the server issued {want}", kind="response-parse", client=name, detail="implicit-e2e")
     elif op == "e2e_pkce":
         import re
         valid = re.fullmatch(r"[A-Za-z0-9\-._~]{43,128}", c["verifier"]) is not None
